@@ -172,6 +172,27 @@ structure Inst where
   /-- `verifySignature(token, pem, alg)` -/
   verifySignature : Str → Pem → Str → Err
 
+/-- settings.go `TemplatedHeader` -/
+structure TemplatedHeader where
+  Name : Str
+  Value : Str
+/-- settings.go `Config`: the fields `Validate` reads; `isValidSecureURL` (net/url parsing) is a parameter -/
+structure Config where
+  ProviderURL : Str
+  CallbackURL : Str
+  ClientID : Str
+  ClientSecret : Str
+  SessionEncryptionKey : Str
+  LogLevel : Str
+  ExcludedURLs : List Str
+  RevocationURL : Str
+  OIDCEndSessionURL : Str
+  PostLogoutRedirectURI : Str
+  RateLimit : Int
+  RefreshGracePeriodSeconds : Int
+  Headers : List TemplatedHeader
+  isValidSecureURL : Str → Bool
+
 /-- `*SessionData` as the translated functions read it: the results of its getters -/
 structure Sess where
   GetAuthenticated : Bool
